@@ -297,7 +297,7 @@ class _StochasticRHS(_MultiTrajRHS):
             sc_op.arguments(args)
 
     def _register_feedback(self, val):
-        self.H._register_feedback({"wiener_process": val}, "stochastic solver")
+        self.H._register_feedback({"WienerFeedback": val}, "stochastic solver")
         for c_op in self.c_ops:
             c_op._register_feedback(
                 {"WienerFeedback": val}, "stochastic solver"
